@@ -788,23 +788,27 @@ class BptkServer(Flask):
         
         instance = self._instance_manager.get_instance(instance_uuid)
 
-        if(instance.is_locked()):
+        # take the session lock for the duration of the step: no other stepping request may run concurrently
+        if not instance.try_lock():
             resp = make_response('{"error": "instace is locked"}', 500)
             resp.headers['Content-Type'] = 'application/json'
             resp.headers['Access-Control-Allow-Origin'] = '*'
             return resp
 
-        if not request.is_json:
-            result = instance.run_step()
-        else:
-            content = request.get_json()
-            if "settings" in content:
-                result = instance.run_step(settings=content["settings"], flat="flatResults" in content and content["flatResults"] == True)
+        try:
+            if not request.is_json:
+                result = instance.run_step()
             else:
-                resp = make_response('{"error": "expecting settings to be set"}', 500)
-                resp.headers['Content-Type'] = 'application/json'
-                resp.headers['Access-Control-Allow-Origin'] = '*'
-                return resp
+                content = request.get_json()
+                if "settings" in content:
+                    result = instance.run_step(settings=content["settings"], flat="flatResults" in content and content["flatResults"] == True)
+                else:
+                    resp = make_response('{"error": "expecting settings to be set"}', 500)
+                    resp.headers['Content-Type'] = 'application/json'
+                    resp.headers['Access-Control-Allow-Origin'] = '*'
+                    return resp
+        finally:
+            instance.unlock()
 
         if result is not None:
             resp = make_response(jsonpickle.dumps(result), 200)
@@ -835,6 +839,7 @@ class BptkServer(Flask):
             return resp
         
         result = []
+        locked = False
         try:
             instance = self._instance_manager.get_instance(instance_uuid)
             if not request.is_json:
@@ -843,7 +848,9 @@ class BptkServer(Flask):
                 resp.headers['Access-Control-Allow-Origin'] = '*'
                 return resp
 
-            if(instance.is_locked()):
+            # checking and taking the lock is one atomic operation
+            locked = instance.try_lock()
+            if not locked:
                 resp = make_response('{"error": "instace is locked"}', 500)
                 resp.headers['Content-Type'] = 'application/json'
                 resp.headers['Access-Control-Allow-Origin'] = '*'
@@ -851,10 +858,8 @@ class BptkServer(Flask):
             content = request.get_json()
             if "numberSteps" in content:
                 if "settings" in content:
-                    instance.lock()
                     for i in range(0,content["numberSteps"]):
                         result.append(instance.run_step(settings=content["settings"], flat="flatResults" in content and content["flatResults"] == True))
-                    instance.unlock()
                 else:
                     resp = make_response('{"error": "expecting settings to be set"}', 500)
                     resp.headers['Content-Type'] = 'application/json'
@@ -866,7 +871,11 @@ class BptkServer(Flask):
                 resp.headers['Access-Control-Allow-Origin'] = '*'
                 return resp
         except:
-            instance.unlock()
+            pass
+        finally:
+            # release the lock however the request ends
+            if locked:
+                instance.unlock()
         if result is not None:
             resp = make_response(jsonpickle.dumps(result), 200)
         else:
@@ -908,7 +917,8 @@ class BptkServer(Flask):
                 resp.headers['Access-Control-Allow-Origin'] = '*'
                 return resp
 
-        if(instance.is_locked()):
+        # checking and taking the lock is one atomic operation
+        if not instance.try_lock():
             resp = make_response('{"error": "instace is locked"}', 500)
             resp.headers['Content-Type'] = 'application/json'
             resp.headers['Access-Control-Allow-Origin'] = '*'
@@ -916,7 +926,6 @@ class BptkServer(Flask):
 
         def streamer():
             try:
-                instance.lock()
                 yield "["
                 first = True
                 while instance.progress() <= 1.0:
@@ -935,11 +944,16 @@ class BptkServer(Flask):
                         yield '{"error": "no data was returned from run_step"}'
                 yield "]"
             except:
+                pass
+            finally:
+                # release the lock when the stream ends: by completion, by error or because the client went away
                 instance.unlock()
             if self._external_state_adapter != None:
                 self._external_state_adapter.save_instance(self._instance_manager._get_instance_state(instance_uuid))
 
         resp = Response(streamer())
+        # also covers a client that disconnects before the stream has been started
+        resp.call_on_close(instance.unlock)
         resp.headers['Content-Type'] = 'application/json'
         resp.headers['Access-Control-Allow-Origin'] = '*'
         return resp
